@@ -30,8 +30,11 @@ def n_call(name, u, dx, lam, z):
 def run(ctx):
     rng = ctx.rng
     ctx.rule = ('pairs of random fields and complex scalars through every method of both APIs (torch: 8 propagation types incl. '
-                'custom kernel, with and without spatial pad/crop; NumPy: 5), plus integer circular shifts; non-trivial = non-zero '
-                'a, b and fields; distinct by (api, method, shape, padding, seed-derived scalars)')
+                'custom kernel, with and without spatial pad/crop; NumPy: every type propagate_beam offers that runs here, and Fraunhofer followed by '
+                'fraunhofer_equal_size_adjust), plus integer circular shifts (translation inside the window for Rayleigh-Sommerfeld); torch point_wise '
+                '(non-negative amplitude weights), the point-wise impulse-response kernel (aperture field), propagator.reconstruct (complex hologram '
+                'field, laser powers; frames x depths x channels); non-trivial = non-zero a, b and fields; distinct by (api, method, shape, padding, '
+                'seed-derived scalars)')
     # correspondence (same as C01, smaller): the model has no normalisation stage, so any such change breaks it
     cases = []
     for (n, m) in [(3, 4), (5, 5), (6, 7), (8, 8), (2, 5)] + ([(a, b) for a in (4, 7, 9) for b in (3, 6)] if not ctx.quick else []):
@@ -137,11 +140,236 @@ def run(ctx):
                 ctx.violation('propagator.__call__ maps the zero field to a non-zero field', rec, {'api': 'torch', 'method': 'propagator', 'what': 'zero_to_zero'})
             s_, t_ = rng.randrange(0, n), rng.randrange(0, m)
             # the propagator pads spatially, so shift-equivariance holds for fields supported away from the border only: not checked here
+    more_numpy_types(ctx)
+    point_wise_cases(ctx)
+    reconstruct_cases(ctx)
+
+
+# ======================================================================================================================
+#  the remaining NumPy propagation types, fraunhofer_equal_size_adjust, torch point-wise routines, propagator.reconstruct
+# ======================================================================================================================
+
+N_MORE = ['Rayleigh-Sommerfeld', 'Fraunhofer Inverse', 'Fraunhofer + equal size adjust', 'Bandextended Angular Spectrum',
+          'Adaptive Sampling Angular Spectrum']
+# tolerance of the superposition / shift defect relative to the output scale: float64 paths 1e-8 as above;
+# Rayleigh-Sommerfeld accumulates its result in a complex64 array (float32 path); the NUFFT types run at eps = 1e-12
+N_TOL = {'Rayleigh-Sommerfeld': 5e-5, 'Bandextended Angular Spectrum': 1e-7, 'Adaptive Sampling Angular Spectrum': 1e-7}
+
+
+def n_more_call(name, u, dx, lam, z):
+    import odak.wave as NW
+    if name == 'Fraunhofer + equal size adjust':
+        return np.asarray(NW.fraunhofer_equal_size_adjust(NW.propagate_beam(u, 2 * math.pi / lam, z, dx, lam, 'Fraunhofer'), z, dx, lam), dtype=np.complex128)
+    return np.asarray(NW.propagate_beam(u, 2 * math.pi / lam, z, dx, lam, name), dtype=np.complex128)
+
+
+def superposition_defect(f, u, v, a, b):
+    fu, fv, fw = f(u), f(v), f(a * u + b * v)
+    scale = max(1e-12, float(np.max(np.abs(fu))), float(np.max(np.abs(fv))))
+    return W.maxdiff(fw, a * fu + b * fv) / scale, fu, scale
+
+
+def more_numpy_types(ctx):
+    rng = ctx.rng
+    shapes = [(5, 5), (6, 6), (8, 8), (6, 8), (7, 5)] if ctx.quick else [(5, 5), (6, 6), (8, 8), (6, 8), (7, 5), (9, 9), (10, 6), (12, 12)]
+    unavailable = set()
+    for (n, m) in shapes:
+        for name in N_MORE:
+            if name in unavailable:
+                continue
+            for zc in (('near', 'neg') if ctx.quick else ('near', 'far', 'neg', 'negfar')):
+                dx, lam, z, _ = W.rand_optics(rng, zc)
+                if name == 'Fraunhofer + equal size adjust':
+                    z = rng.uniform(1.2, 2.4) * max(n, m) * dx * dx / lam      # the adjusted window (l1 / l2 of the side, >= 2 samples) fits into the field
+                u, v = W.rand_field(rng, n, m, 'gauss'), W.rand_field(rng, n, m, rng.choice(['gauss', 'delta', 'real']))
+                a, b = complex(rng.gauss(0, 1), rng.gauss(0, 1)), complex(rng.gauss(0, 1), rng.gauss(0, 1))
+                f = lambda x: n_more_call(name, x, dx, lam, z)
+                rec = {'api': 'numpy', 'method': name, 'n': n, 'm': m, 'dx': dx, 'lam': lam, 'z': z, 'a': [a.real, a.imag], 'b': [b.real, b.imag],
+                       'u': W.enc_field(u), 'v': W.enc_field(v)}
+                try:
+                    d, fu, scale = superposition_defect(f, u, v, a, b)
+                    f0 = f(np.zeros((n, m), dtype=np.complex128))
+                except Exception as e:
+                    if name in ('Bandextended Angular Spectrum', 'Adaptive Sampling Angular Spectrum') and isinstance(e, (UnboundLocalError, ImportError, NameError)):
+                        unavailable.add(name)
+                        ctx.note('NumPy %r needs the finufft package, which is not installed here: not exercised (%r)' % (name, e))
+                        ctx.count('numpy/%s/unavailable (finufft missing)' % name)
+                        break
+                    if name == 'Rayleigh-Sommerfeld' and n != m:
+                        ctx.count('numpy/Rayleigh-Sommerfeld/rejected: non-square field (%s)' % type(e).__name__)
+                        break
+                    ctx.violation('numpy %s raised %r' % (name, e), rec, {'api': 'numpy', 'method': name, 'what': 'raises'})
+                    continue
+                ctx.case(('numpy', name, n, m, zc), True, rec if len(ctx.samples) < 6 else None)
+                ctx.count('numpy/%s/%s' % (name, 'square' if n == m else 'non-square'))
+                tol = N_TOL.get(name, 1e-8)
+                if not (np.isfinite(fu).all() and d <= tol):
+                    ctx.violation('numpy %s is not linear: |out(au+bv) - a out(u) - b out(v)| / scale = %.3g (%dx%d, z = %g)' % (name, d, n, m, z),
+                                  rec, {'api': 'numpy', 'method': name, 'what': 'superposition'})
+                if not (np.isfinite(f0).all() and np.max(np.abs(f0)) <= 1e-12):
+                    ctx.violation('numpy %s maps the zero field to a non-zero field' % name, rec, {'api': 'numpy', 'method': name, 'what': 'zero_to_zero'})
+                if name in ('Bandextended Angular Spectrum', 'Adaptive Sampling Angular Spectrum'):
+                    # convolution-type (a transfer function applied between a forward and an inverse transform): circular whole-pixel shifts
+                    s, t = rng.randrange(0, n), rng.randrange(0, m)
+                    d2 = W.maxdiff(f(np.roll(u, (s, t), axis=(0, 1))), np.roll(fu, (s, t), axis=(0, 1))) / scale
+                    ctx.case(('numpy', name, n, m, 'shift'), s + t > 0)
+                    if not d2 <= tol:
+                        ctx.violation('numpy %s is not shift-equivariant (shift %s, defect %.3g, %dx%d)' % (name, (s, t), d2, n, m),
+                                      dict(rec, shift=[s, t]), {'api': 'numpy', 'method': name, 'what': 'shift_equivariance'})
+                if name == 'Rayleigh-Sommerfeld':
+                    # a direct superposition integral over the window (no wrap-around): translating a field that stays inside the window
+                    # translates the output where both windows overlap
+                    s, t = rng.randrange(0, max(1, n // 2)), rng.randrange(0, max(1, m // 2))
+                    w0 = np.zeros((n, m), dtype=np.complex128)
+                    w0[:n - s, :m - t] = u[:n - s, :m - t]
+                    w1 = np.zeros((n, m), dtype=np.complex128)
+                    w1[s:, t:] = w0[:n - s, :m - t]
+                    o0, o1 = f(w0), f(w1)
+                    d2 = W.maxdiff(o1[s:, t:], o0[:n - s, :m - t]) / max(1e-12, float(np.max(np.abs(o0))))
+                    ctx.case(('numpy', name, n, m, 'shift'), s + t > 0)
+                    if not d2 <= tol:
+                        ctx.violation('numpy Rayleigh-Sommerfeld is not translation-equivariant on the overlap of the windows (shift %s, defect %.3g, %dx%d)'
+                                      % ((s, t), d2, n, m), dict(rec, shift=[s, t]), {'api': 'numpy', 'method': name, 'what': 'shift_equivariance'})
+
+
+def point_wise_cases(ctx):
+    """point_wise: the hologram is the superposition of the sub-holograms of the target's points, i.e. linear in the point amplitudes
+    sqrt(target) (non-negative weights: the target is an intensity).  get_point_wise_impulse_response_fresnel_kernel: complex-linear in the
+    aperture field for fixed aperture / target points."""
+    import odak.learn.wave as LW
+    rng = ctx.rng
+    dev = torch.device('cpu')
+    for (n, m) in ([(6, 6), (5, 8), (9, 7)] if ctx.quick else [(6, 6), (5, 8), (9, 7), (12, 12), (8, 5)]):
+        for lens in (401, 3):
+            dx, lam, z, _ = W.rand_optics(rng, rng.choice(['near', 'far', 'neg']))
+            A = np.array([[rng.uniform(0, 1) for _ in range(m)] for _ in range(n)]); B = np.array([[rng.uniform(0, 1) if rng.random() < 0.5 else 0.0 for _ in range(m)] for _ in range(n)])
+            a, b = rng.uniform(0.1, 0.6), rng.uniform(0.1, 0.4)
+            f = lambda amp: LW.point_wise(torch.tensor(amp ** 2, dtype=torch.float64), lam, z, dx, dev, lens_size=lens).detach().numpy().astype(np.complex128)
+            rec = {'api': 'torch', 'method': 'point_wise', 'n': n, 'm': m, 'dx': dx, 'lam': lam, 'z': z, 'lens_size': lens, 'a': a, 'b': b,
+                   'A': A.tolist(), 'B': B.tolist()}
+            try:
+                d, fu, scale = superposition_defect(f, A, B, a, b)
+                f0 = f(np.zeros((n, m)))
+            except Exception as e:
+                ctx.violation('torch point_wise raised %r' % e, rec, {'api': 'torch', 'method': 'point_wise', 'what': 'raises'})
+                continue
+            ctx.case(('point_wise', n, m, lens), True, None)
+            ctx.count('torch/point_wise/lens_size=%d' % lens)
+            if fu.shape != (n, m) or not np.isfinite(fu).all() or not d <= 2e-3:
+                ctx.violation('torch point_wise is not linear in the point amplitudes sqrt(target): defect %.3g, output %s for a %dx%d target'
+                              % (d, fu.shape, n, m), rec, {'api': 'torch', 'method': 'point_wise', 'what': 'superposition'})
+            if not np.max(np.abs(f0)) <= 1e-12:
+                ctx.violation('torch point_wise maps the zero target to a non-zero hologram', rec, {'api': 'torch', 'method': 'point_wise', 'what': 'zero_to_zero'})
+    for (rx, ry, ma) in ([(4, 5, 6), (3, 3, 1), (6, 4, 9)] if ctx.quick else [(4, 5, 6), (3, 3, 1), (6, 4, 9), (8, 8, 12), (5, 7, 3)]):
+        for factor in (1, 2):
+            lam, dist, pitch = 0.5, rng.choice([-1, 1]) * rng.uniform(2.0, 8.0), 0.8
+            npts = rx * ry * factor * factor
+            ap = torch.tensor([[rng.uniform(-1, 1) * pitch, rng.uniform(-1, 1) * pitch, 0.0] for _ in range(ma)], dtype=torch.float64)
+            tp = torch.tensor([[(i - rx * factor / 2) * pitch / factor, (j - ry * factor / 2) * pitch / factor, dist] for i in range(rx * factor) for j in range(ry * factor)],
+                              dtype=torch.float64)
+            F = lambda: np.array([[complex(rng.gauss(0, 1), rng.gauss(0, 1)) for _ in range(ma)]])
+            u, v = F(), F()
+            a, b = complex(rng.gauss(0, 1), rng.gauss(0, 1)), complex(rng.gauss(0, 1), rng.gauss(0, 1))
+            f = lambda fld: LW.get_point_wise_impulse_response_fresnel_kernel(aperture_points=ap, aperture_field=torch.tensor(fld, dtype=torch.complex128),
+                                                                               target_points=tp, resolution=[rx, ry], resolution_factor=factor, wavelength=lam,
+                                                                               distance=dist, randomization=False).detach().numpy().astype(np.complex128)
+            rec = {'api': 'torch', 'method': 'point_wise_kernel', 'resolution': [rx, ry], 'resolution_factor': factor, 'aperture_points': ma, 'distance': dist,
+                   'a': [a.real, a.imag], 'b': [b.real, b.imag]}
+            try:
+                d, fu, scale = superposition_defect(f, u, v, a, b)
+                f0 = f(np.zeros((1, ma), dtype=np.complex128))
+            except Exception as e:
+                ctx.violation('get_point_wise_impulse_response_fresnel_kernel raised %r' % e, rec, {'api': 'torch', 'method': 'point_wise_kernel', 'what': 'raises'})
+                continue
+            ctx.case(('point_wise_kernel', rx, ry, ma, factor), True, None)
+            ctx.count('torch/point_wise_kernel/%d aperture points' % ma)
+            if fu.shape != (rx * factor, ry * factor) or not np.isfinite(fu).all() or not d <= 1e-9:
+                ctx.violation('get_point_wise_impulse_response_fresnel_kernel is not linear in the aperture field: defect %.3g, output %s' % (d, fu.shape), rec,
+                              {'api': 'torch', 'method': 'point_wise_kernel', 'what': 'superposition'})
+            if not np.max(np.abs(f0)) <= 1e-12:
+                ctx.violation('get_point_wise_impulse_response_fresnel_kernel maps the zero aperture field to a non-zero response', rec,
+                              {'api': 'torch', 'method': 'point_wise_kernel', 'what': 'zero_to_zero'})
+
+
+def reconstruct_cases(ctx):
+    """propagator.reconstruct(get_complex=True): frame f, depth d, channel c holds laser_power[f][c] * P_{d,c}(amplitude * exp(i phase)) - complex-linear
+    in the hologram field amplitude * exp(i phase), linear in the laser powers; the intensities are its squared moduli; the kernels it used
+    (get_kernels) do not depend on the fields that went through"""
+    import odak.learn.wave as LW
+    rng = ctx.rng
+    for ptype in ('forward', 'back and forth'):
+        for method in ('conventional', 'multi-color'):
+            for (n, m) in ([(6, 6), (5, 7)] if ctx.quick else [(6, 6), (5, 7), (8, 6), (9, 9)]):
+                Fr, Ch, Dp = rng.choice([(1, 1, 1), (2, 2, 2), (2, 3, 1), (3, 3, 2)])
+                wl = [0.5, 0.6, 0.45][:Ch]
+                lp = torch.tensor([[rng.uniform(0.2, 1.0) for _ in range(Ch)] for _ in range(Fr)])
+
+                def make():
+                    pr = LW.propagator(resolution=[n, m], wavelengths=wl, pixel_pitch=0.8, number_of_frames=Fr, number_of_depth_layers=Dp, volume_depth=2.0,
+                                       image_location_offset=1.0, propagation_type=rng.choice(['Bandlimited Angular Spectrum', 'Angular Spectrum', 'Transfer Function Fresnel']),
+                                       propagator_type=ptype, back_and_forth_distance=3.0, method=method, device=torch.device('cpu'))
+                    return pr
+                prop = make()
+                prop.set_laser_powers(lp.clone())
+                power = prop.get_laser_powers().detach().numpy().astype(np.float64)
+
+                def f(w, pr=prop):
+                    amp = torch.tensor(np.abs(w), dtype=torch.float32).unsqueeze(0).repeat(Ch, 1, 1)
+                    ph = torch.tensor(np.angle(w), dtype=torch.float32).unsqueeze(0).repeat(Fr, 1, 1)
+                    return pr.reconstruct(ph, amplitude=amp, get_complex=True).detach().numpy().astype(np.complex128)
+                u, v = W.rand_field(rng, n, m, 'gauss'), W.rand_field(rng, n, m, 'gauss')
+                a, b = complex(rng.gauss(0, 1), rng.gauss(0, 1)), complex(rng.gauss(0, 1), rng.gauss(0, 1))
+                rec = {'api': 'torch', 'method': 'propagator.reconstruct', 'ptype': ptype, 'hologram_type': method, 'n': n, 'm': m, 'frames': Fr, 'channels': Ch, 'depths': Dp,
+                       'propagation_type': prop.propagation_type}
+                try:
+                    fw = f(a * u + b * v)                       # first pass builds the kernels, the later ones read the cache
+                    d, fu, scale = superposition_defect(f, u, v, a, b)
+                    d = max(d, W.maxdiff(fw, f(a * u + b * v)) / scale)
+                    f0 = f(np.zeros((n, m), dtype=np.complex128))
+                    amp = torch.tensor(np.abs(u), dtype=torch.float32).unsqueeze(0).repeat(Ch, 1, 1)
+                    ph = torch.tensor(np.angle(u), dtype=torch.float32).unsqueeze(0).repeat(Fr, 1, 1)
+                    inten = prop.reconstruct(ph, amplitude=amp).detach().numpy().astype(np.float64)
+                    ka, kp = [x.detach().numpy() for x in prop.get_kernels()]
+                except Exception as e:
+                    ctx.violation('propagator.reconstruct raised %r' % e, rec, {'api': 'torch', 'method': 'propagator.reconstruct', 'what': 'raises'})
+                    continue
+                ctx.case(('reconstruct', ptype, method, n, m, Fr, Ch, Dp), True, rec if len(ctx.samples) < 6 else None)
+                ctx.count('propagator.reconstruct/%s/%s/%dx%dx%d' % (ptype, method, Fr, Dp, Ch))
+                if fu.shape != (Fr, Dp, Ch, n, m) or not np.isfinite(fu).all() or not d <= 5e-3:
+                    ctx.violation('propagator.reconstruct(get_complex=True) is not linear in the hologram field amplitude * exp(i phase): defect %.3g (%s, %s, output %s)'
+                                  % (d, ptype, method, fu.shape), rec, {'api': 'torch', 'method': 'propagator.reconstruct', 'what': 'superposition'})
+                    continue
+                if not np.max(np.abs(f0)) <= 1e-12:
+                    ctx.violation('propagator.reconstruct maps the zero field to a non-zero field', rec, {'api': 'torch', 'method': 'propagator.reconstruct', 'what': 'zero_to_zero'})
+                if W.maxdiff(inten, np.abs(fu) ** 2) > 5e-4 * max(1.0, float(np.max(np.abs(fu) ** 2))):
+                    ctx.violation('propagator.reconstruct: the intensities differ from the squared moduli of the complex reconstruction by %.3g'
+                                  % W.maxdiff(inten, np.abs(fu) ** 2), rec, {'api': 'torch', 'method': 'propagator.reconstruct', 'what': 'intensity_vs_complex'})
+                # linear in the laser powers: frame f, channel c equals power[f][c] times the unit-power reconstruction of channel c
+                unit = LW.propagator(resolution=[n, m], wavelengths=wl, pixel_pitch=0.8, number_of_frames=Fr, number_of_depth_layers=Dp, volume_depth=2.0, image_location_offset=1.0,
+                                     propagation_type=prop.propagation_type, propagator_type=ptype, back_and_forth_distance=3.0, method='conventional',
+                                     laser_channel_power=torch.ones(Fr, Ch), device=torch.device('cpu'))
+                fone = f(u, unit)
+                kb, _ = [x.detach().numpy() for x in unit.get_kernels()]
+                dp = max(W.maxdiff(fu[fr, :, c], power[fr, c] * fone[fr, :, c]) for fr in range(Fr) for c in range(Ch)) / scale
+                if not dp <= 5e-3:
+                    ctx.violation('propagator.reconstruct is not proportional to the laser powers (defect %.3g)' % dp, rec,
+                                  {'api': 'torch', 'method': 'propagator.reconstruct', 'what': 'laser_power'})
+                if ka.shape != kb.shape or not np.allclose(ka, kb, atol=1e-5 * max(1.0, float(np.max(np.abs(kb))))):
+                    ctx.violation('propagator.get_kernels: kernels of two propagators with the same settings differ after different fields went through '
+                                  '(the kernel depends on the input)', rec, {'api': 'torch', 'method': 'propagator.get_kernels', 'what': 'input_independent_kernel'})
 
 
 def replay(ctx, rep):
     r = rep['replay']
     rng = ctx.rng
+    if r.get('method') in N_MORE:
+        u, v = W.dec_field(r['u'], r['n'], r['m']), W.dec_field(r['v'], r['n'], r['m'])
+        d, _, _ = superposition_defect(lambda x: n_more_call(r['method'], x, r['dx'], r['lam'], r['z']), u, v, complex(*r['a']), complex(*r['b']))
+        print('superposition defect %.3g' % d)
+        return d <= N_TOL.get(r['method'], 1e-8)
+    if 'n' not in r or r.get('method') in ('point_wise', 'point_wise_kernel', 'propagator.reconstruct'):
+        print('re-observation: run ./check C03 (method %s)' % r.get('method'))
+        return True
     n, m = r['n'], r['m']
     u, v = W.rand_field(rng, n, m, 'gauss'), W.rand_field(rng, n, m, 'gauss')
     a, b = complex(*r.get('a', [1, 0])), complex(*r.get('b', [1, 0]))
